@@ -38,13 +38,31 @@ Al->Fe : as.zero
 Fe->Fe : as.zero
 Ni->Fe : as.zero
 """
+CHARGED_MODEL = """[Pair]
+Ce4+-O2- : as.zero
+O2--Ce3+ : as.zero
+O2--O2- : as.zero
+Ce3+-Ce4+ : as.zero
+[EAM-Embed]
+Ce4+ : as.zero
+Ce3+ : as.zero
+[EAM-Density]
+Ce4+->Ce3+ : as.zero
+Ce3+->Ce4+ : as.zero
+Ce3+->Ce3+ : as.zero
+O2-->Ce4+ : as.zero
+"""
 UNIV = ["Al", "O", "Mg", "Cu", "Ni", "Fe", "Zz"]
 PAIR = ConfigParser(io.StringIO(PAIR_MODEL))
 EAM = ConfigParser(io.StringIO(EAM_MODEL))
 FS = ConfigParser(io.StringIO(FS_MODEL))
+try:
+  CHARGED = ConfigParser(io.StringIO(CHARGED_MODEL.replace("O2-", "O")))
+except Exception:  # noqa
+  CHARGED = None
 
 TARGETS = {n: "_filtered_config_parser.FilteredConfigParser.__init__/_check_tuple/pair/eam_embed/eam_density/eam_density_fs"
-           for n in ("one_view_pair", "one_view_eam", "one_view_fs", "two_views_pair", "two_views_eam", "two_views_fs")}
+           for n in ("one_view_charged", "one_view_pair", "one_view_eam", "one_view_fs", "two_views_pair", "two_views_eam", "two_views_fs")}
 
 
 def labels(idx):
@@ -78,8 +96,8 @@ def make_view(cp, species, exclude):
 
 
 def views_of(model):
-  cp = (PAIR, EAM, FS)[model]
-  names = (["pair"], ["pair", "eam_embed", "eam_density"], ["pair", "eam_embed", "eam_density_fs"])[model]
+  cp = (PAIR, EAM, FS, CHARGED)[model]
+  names = (["pair"], ["pair", "eam_embed", "eam_density"], ["pair", "eam_embed", "eam_density_fs"], ["pair", "eam_embed", "eam_density_fs"])[model]
   return cp, names
 
 
@@ -90,7 +108,7 @@ def check_view(view, cp, names, species, exclude):
   return True
 
 
-MODEL_UNIV = (("Al", "O", "Mg", "Zz"), ("Al", "Cu", "Ni", "Zz"), ("Al", "Fe", "Ni", "Zz"))
+MODEL_UNIV = (("Al", "O", "Mg", "Zz"), ("Al", "Cu", "Ni", "Zz"), ("Al", "Fe", "Ni", "Zz"), ("Ce4+", "Ce3+", "O", "Ce"))
 
 
 def mlabels(model, idx):
@@ -126,6 +144,15 @@ def one_view_fs(idx: List[int], exclude: bool) -> bool:
   post: _
   """
   return _one(2, idx, exclude)
+
+
+def one_view_charged(idx: List[int], exclude: bool) -> bool:
+  """
+  pre: len(idx) <= 3 and all(0 <= i < 4 for i in idx)
+  post: _
+  """
+  # species labels are arbitrary text: charges ('Ce4+'), labels that are prefixes of others ('Ce')
+  return _one(3, idx, exclude)
 
 
 def _two(model, idx1, ex1, idx2, ex2, second_first):
@@ -307,6 +334,7 @@ def _rp_two(model, idx1, ex1, idx2, ex2, second_first):
 REPLAY = dict(
   one_view_pair=lambda idx, exclude: _rp_one(0, idx, exclude), one_view_eam=lambda idx, exclude: _rp_one(1, idx, exclude),
   one_view_fs=lambda idx, exclude: _rp_one(2, idx, exclude),
+  one_view_charged=lambda idx, exclude: _rp_one(3, idx, exclude),
   two_views_pair=lambda idx1, ex1, idx2, ex2, second_first: _rp_two(0, idx1, ex1, idx2, ex2, second_first),
   two_views_eam=lambda idx1, ex1, idx2, ex2, second_first: _rp_two(1, idx1, ex1, idx2, ex2, second_first),
   two_views_fs=lambda idx1, ex1, idx2, ex2, second_first: _rp_two(2, idx1, ex1, idx2, ex2, second_first),
